@@ -142,9 +142,32 @@ static int16_t  d_can_read(CO_IF_FRM *f)
     *f = RxFrm; RxHave = 0;
     return (int16_t)sizeof(CO_IF_FRM);
 }
+/* MemorySanitizer build: everything the node puts on the bus (identifier, DLC, the DLC data bytes) and hands to the application
+ * has to be initialised memory - a frame assembled in a local variable of the stack must not carry stack garbage */
+#if defined(__has_feature)
+#if __has_feature(memory_sanitizer)
+#include <sanitizer/msan_interface.h>
+#define HAVE_MSAN 1
+#endif
+#endif
+#ifndef HAVE_MSAN
+#define HAVE_MSAN 0
+#endif
+static void frame_initialised(const char *what, CO_IF_FRM *f)
+{
+#if HAVE_MSAN
+    intptr_t a = __msan_test_shadow(&f->Identifier, sizeof f->Identifier), b = __msan_test_shadow(&f->DLC, sizeof f->DLC);
+    if (a >= 0 || b >= 0) { printf("inv %s-uninitialised-header\n", what); __msan_unpoison(f, sizeof *f); return; }
+    intptr_t c = __msan_test_shadow(f->Data, f->DLC > 8 ? 8 : f->DLC);
+    if (c >= 0) { printf("inv %s-uninitialised-data-byte id=%x dlc=%u byte=%d\n", what, f->Identifier, f->DLC, (int)c); __msan_unpoison(f, sizeof *f); }
+#else
+    (void)what; (void)f;
+#endif
+}
 static int16_t  d_can_send(CO_IF_FRM *f)
 {
     int fail = 0;
+    frame_initialised("tx", f);
     if (F_cansend > 0 && --F_cansend == 0) fail = 1;
     printf("tx %u %x %u ", Tick, f->Identifier, f->DLC);
     hex(f->Data, f->DLC > 8 ? 8 : f->DLC);
